@@ -236,7 +236,7 @@ def main(argv):
         fail("scopes#non_intrinsic_typed_declarations_shadow_too", dict(source=src), "%s: %s" % (type(e).__name__, str(e)[:120]))
     # sibling scopes that carry the same name are still two scopes: one table each, declarations of one not visible in the other
     def tree_of(tb):
-        nm = tb.name
+        nm = "block" if tb.name.startswith("block:") else tb.name
         return (nm, sorted(tb._data_symbols), [tree_of(c) for c in tb.children])
     siblings = [
         ("interface_body_and_definition",
@@ -250,6 +250,12 @@ def main(argv):
          "module m2\n interface g1\n  subroutine put(x)\n   real :: x, abs\n  end subroutine put\n end interface\n interface g2\n  subroutine put(k)\n   integer :: k\n  end subroutine put\n end interface\n"
          "contains\n subroutine q(y)\n  real :: y\n  y = abs(y)\n end subroutine q\nend module m2\n",
          "m2", ("m2", [], [("put", ["abs", "x"], []), ("put", ["k"], []), ("q", ["y"], [])]), {"abs": True}),
+    ]
+    siblings += [
+        # the same module used twice in one scope, the second only-list repeating a name and adding an intrinsic-named one
+        ("overlapping_only_lists",
+         "module mo\n use ma, only: wp\n use ma, only: wp, sin\n use mb, only: cos\n use mb, only: cos => fast_cos, tan\ncontains\n subroutine inner(x)\n  real :: x\n  x = sin(x) + tan(x) + cos(x)\n  block\n   x = sin(x)\n  end block\n end subroutine inner\nend module mo\n",
+         "mo", ("mo", [], [("inner", ["x"], [("block", [], [])])]), {"sin": False, "tan": False, "cos": False}),
     ]
     for sname, src, top, want, refs in siblings:
         cases += 1
